@@ -24,6 +24,7 @@ use serde::Serialize;
 use serde::de::DeserializeOwned;
 use serde_json::{Value, json};
 
+pub mod fuzz;
 pub mod sched;
 pub mod stepper;
 pub use proptest;
